@@ -143,7 +143,16 @@ def r2(ctx, cls, wk):
   loops = [n for n in ast.walk(wk.node) if isinstance(n, ast.For)]
   ll = [n for n in loops if any(isinstance(c, ast.Call) and call_attr(c) == '_on_leave' for c in ast.walk(n))]
   jl = [n for n in loops if any(isinstance(c, ast.Call) and call_attr(c) == '_on_join' for c in ast.walk(n))]
-  ok = len(ll) == 1 and len(jl) == 1 and ll[0].lineno < jl[0].lineno
+  ok = len(ll) == 1 and len(jl) == 1
+  if ok:
+    # order along every path of one worker iteration (positions of inlined helper code are not comparable by line)
+    wl = [n for n in wk.node.body if isinstance(n, ast.While)]
+    body = wl[0].body if wl else wk.node.body
+    for evp, exp in enum_paths(ctx, wk, body=body):
+      li = [i for i, e in enumerate(evp) if e.kind == 'call' and call_attr(e.node) == '_on_leave']
+      ji = [i for i, e in enumerate(evp) if e.kind == 'call' and call_attr(e.node) == '_on_join']
+      if li and ji and max(li) > min(ji):
+        ok = False
   ctx.ob('C19.R2', wk, 'leaves are delivered before joins of the same batch', ok, 'loop order changed',
          'a member that is replaced under the same name must be seen leaving before its successor joins')
   if len(ll) == 1:
@@ -173,6 +182,13 @@ def r2(ctx, cls, wk):
            'a member that vanished between listing and reading must not be announced')
     upd = [c for c in ast.walk(wk.node) if isinstance(c, ast.Call) and call_attr(c) == 'update' and U(c.func.value) == 'self._members']
     ok = len(upd) == 1 and it in U(upd[0]) and 'name' in U(upd[0])
+    if not upd:
+      # or item by item:  for m in <members>: self._members[m.name] = m
+      for lp in [n for n in ast.walk(wk.node) if isinstance(n, ast.For) and U(n.iter) == it]:
+        v_ = U(lp.target)
+        st_ = [s_ for s_ in lp.body if isinstance(s_, ast.Assign) and isinstance(s_.targets[0], ast.Subscript) and U(s_.targets[0].value) == 'self._members']
+        if len(st_) == 1 and U(st_[0].targets[0].slice) == '%s.name' % v_ and U(st_[0].value) == v_:
+          ok = True
     ctx.ob('C19.R2', wk, 'announced members are recorded by name', ok, '_members.update is %s' % [U(u) for u in upd],
            'a later leave finds the member by its node name')
   z = prog.func(Z, 'ServerSet._zk_nodes_to_members')
